@@ -145,13 +145,17 @@ else:
         if not _is_main_thread():
             return
         mon = sys.monitoring
-        mon.use_tool_id(mon.PROFILER_ID, 'line_profiler')
+        # The ID may already be taken (another `LineProfiler`, or
+        # `cProfile`); tracing works regardless, so don't fail
+        if mon.get_tool(mon.PROFILER_ID) is None:
+            mon.use_tool_id(mon.PROFILER_ID, 'line_profiler')
 
     def _sys_monitoring_deregister() -> None:
         if not _is_main_thread():
             return
         mon = sys.monitoring
-        mon.free_tool_id(mon.PROFILER_ID)
+        if mon.get_tool(mon.PROFILER_ID) == 'line_profiler':
+            mon.free_tool_id(mon.PROFILER_ID)
 
 def label(code):
     """
